@@ -1,4 +1,77 @@
-From MV Require Import Chain.ChainModel Chain.ChainSpec Chain.ChainProofs.
-Theorem c03_stub : True.
-Proof. exact stub. Qed.
-Print Assumptions c03_stub.
+(* Property C03 - X.509 chain validation reports success only for a genuinely signed path to a trust
+   anchor, and accepts chains that meet the rules.
+   Only statements closed by `exact`; the proofs live in Chain/ChainProofs.v.
+   Model: Chain/ChainModel.v (validate / auth_api / parse_gate; first argument true = the code with
+   pending-fixes/C03-*.patch applied, false = the pinned code).  Spec: Chain/ChainSpec.v.
+   sig_ok (psVerifySig) is universally quantified: the theorems hold whatever signatures verify. *)
+From Coq Require Import List ZArith NArith Bool.
+From MV Require Import Gen.Consts Gen.ConstsChain Chain.ChainModel Chain.ChainSpec Chain.ChainProofs.
+Import ListNotations.
+
+(* soundness: success (rc 0 and every authStatus PASS) implies a genuine path to one of the anchors *)
+Theorem c03_sound : forall (sig_ok : N -> N -> N -> N -> bool) rv chain anchors,
+  anchors <> [] -> Forall parsed (chain ++ anchors) -> hd_fresh chain ->
+  accepted (validate sig_ok true rv chain anchors) = true ->
+  genuine_path sig_ok rv chain anchors.
+Proof. exact validate_sound. Qed.
+Print Assumptions c03_sound.
+
+(* the pinned code violates it: signature bytes of a trust anchor pasted under a foreign issuer name *)
+Theorem c03_sound_pinned_refuted :
+  exists sig_ok rv chain anchors,
+    anchors <> [] /\ Forall parsed (chain ++ anchors) /\ hd_fresh chain /\
+    accepted (validate sig_ok false rv chain anchors) = true /\
+    ~ genuine_path sig_ok rv chain anchors.
+Proof. exact validate_sound_pinned_refuted. Qed.
+Print Assumptions c03_sound_pinned_refuted.
+
+(* completeness, for the leaf-first order the TLS <= 1.2 path supplies: a genuine path that uses
+   supported features is accepted, wherever its anchor stands in the list *)
+Theorem c03_complete : forall (sig_ok : N -> N -> N -> N -> bool) rv chain before a after,
+  supported_path sig_ok rv chain before a ->
+  accepted (validate sig_ok true rv chain (before ++ a :: after)) = true.
+Proof. exact validate_complete. Qed.
+Print Assumptions c03_complete.
+
+(* called without trust anchors, success only says: consistent chain ending in a genuinely
+   self-signed certificate (the TLS layer must still answer unknown_ca - C04) *)
+Theorem c03_noanchor : forall (sig_ok : N -> N -> N -> N -> bool) rv chain,
+  Forall parsed chain -> accepted (validate sig_ok true rv chain []) = true ->
+  self_contained sig_ok chain /\ Forall (valid_now rv) chain.
+Proof. exact validate_noanchor_sound. Qed.
+Print Assumptions c03_noanchor.
+
+Theorem c03_noanchor_pinned_refuted :
+  exists sig_ok rv chain, Forall parsed chain /\
+    accepted (validate sig_ok false rv chain []) = true /\ ~ self_contained sig_ok chain.
+Proof. exact validate_noanchor_pinned_refuted. Qed.
+Print Assumptions c03_noanchor_pinned_refuted.
+
+(* "rc = 0 -> every examined certificate has authStatus PASS" is FALSE, also for the repaired code:
+   validity dates, keyUsage and key identifiers are reported through authStatus only *)
+Theorem c03_status_consistent_refuted :
+  exists sig_ok rv chain anchors,
+    anchors <> [] /\ Forall parsed (chain ++ anchors) /\ hd_fresh chain /\
+    v_rc (validate sig_ok true rv chain anchors) = 0%Z /\
+    ~ Forall (fun s => st s = c_PS_CERT_AUTH_PASS) (v_states (validate sig_ok true rv chain anchors)).
+Proof. exact status_consistent_refuted. Qed.
+Print Assumptions c03_status_consistent_refuted.
+
+(* what rc = 0 alone does guarantee: names, signatures, CA flags, revocation and path length *)
+Theorem c03_status_consistent_partial : forall (sig_ok : N -> N -> N -> N -> bool) rv chain anchors,
+  anchors <> [] -> Forall parsed (chain ++ anchors) ->
+  v_rc (validate sig_ok true rv chain anchors) = 0%Z ->
+  signed_path sig_ok chain anchors.
+Proof. exact validate_rc0_signed_path. Qed.
+Print Assumptions c03_status_consistent_partial.
+
+(* parse-time gate: what reaches the validator is v3, carries no unknown critical extension, has
+   matching inner / outer algorithm, and an enabled one (SHA-2; SHA-1 only on certificates whose
+   subject and issuer common names coincide) - and nothing else is refused on these grounds *)
+Theorem c03_parse_gate : forall d, parse_gate true d = true <-> gate_demands d.
+Proof. exact parse_gate_iff. Qed.
+Print Assumptions c03_parse_gate.
+
+Theorem c03_parse_gate_pinned_refuted : exists d, parse_gate false d = true /\ ~ gate_demands d.
+Proof. exact parse_gate_pinned_refuted. Qed.
+Print Assumptions c03_parse_gate_pinned_refuted.
